@@ -103,7 +103,8 @@ def run(v, O):
             out.append((f'{path}: value', O.eq(got, eval(want, {'v': v}), 1e-9)))
     return out
 '''
-BAD = [('injection selecting no node', 'a float = 1 m\nb float = {?zz}'), ('injection selecting several nodes', 'g\n  a float = 1\n  b float = 2\nc float = {?g.*}'),
+BAD = [('an option added to an imported copy must not widen the original', 'mode int = 1\n  !options [1,2]\nc {?mode}\n  = 3\nmode = 3'), ('an option added to one import must not reach a second import', 'mode int = 1\n  !options [1,2]\na {?mode}\n  = 3\nb {?mode}\nb.mode = 3'),
+       ('injection selecting no node', 'a float = 1 m\nb float = {?zz}'), ('injection selecting several nodes', 'g\n  a float = 1\n  b float = 2\nc float = {?g.*}'),
        ('injection of a whole subtree', 'g\n  a float = 1\n  b float = 2\nc float = {?*}'), ('import from an unknown source', 'k {nosuch?*}'),
        ('injection from an unknown source', 'a float = {nosuch?x}'), ('constraint of an imported node still enforced', 'src\n  w float = 1 m\n    = 1 m\n    = 2 m\ndst {?src.w}\ndst.w = 3 m')]
 EMPTY_IMPORTS = ['a float = 1 m\nk {?zz.*}', 'a float = 1 m\nk {?zz}', 'g\n  a int = 1\nh\n  {?g.b.*}']
@@ -219,6 +220,10 @@ SLICES = [('string slice', 'person str = "Will Smith"\nsurname str = {?person}[5
           ('int source modified in another prefix, then referenced', 'n int = 5 m\nn = 7000 mm\nk int = {?n}', 'k', 7),
           ('int source modified in a larger prefix, then referenced', 'n int = 5 m\nn = 7 km\nk int = {?n}', 'k', 7000),
           ('int source modified in another prefix, imported', 'g\n  n int = 5 m\n  n = 3 km\nc {?g.*}', 'c.n', 3000),
+          ('float source modified to none, then referenced', 'a float = 1 m\na = none\nb float = {?a}', 'b', None),
+          ('bool source modified to none, then referenced', 'f bool = true\nf = none\ng bool = {?f}', 'g', None),
+          ('str source modified to none, then referenced', 's str = abc\ns = none\nt str = {?s}', 't', None),
+          ('int source modified to none and back to a number, then referenced', 'k int = 3\nk = none\nk = 5\nj int = {?k}', 'j', 5),
           ('injection of the value of a slice that is injected again', 's float[4] = [1,2,3,4]\nt float[:] = {?s}[1:]\nu float = {?t}[0]', 'u', 2.0), ('string whole', 'p str = "abc"\nq str = {?p}', 'q', 'abc')]
 SLICE_SRC = '''
 import numpy as np
